@@ -86,9 +86,10 @@ def build():
     return ix, cts, v
 
 
-def _init_worker():
+def _init_worker(queue=None):
     try:
         _W['ix'], _W['cts'], _W['v'] = build()
+        _W['queue'] = queue
     except Exception:
         _W['err'] = traceback.format_exc()
 
@@ -99,11 +100,17 @@ def ob_summary(o) -> Dict[str, Any]:
             'decisions': list(o.decisions)}
 
 
-def verify_one(task: Tuple[str, str, Optional[List[int]]]) -> Dict[str, Any]:
-    """runs in a worker: verify one function against its contract, replay failures natively"""
-    q, tier, only_decisions = task
-    out: Dict[str, Any] = {'function': q, 'obligations': [], 'failures': [], 'unsupported': [], 'errors': [],
-                           'cross': {'checked': 0, 'agree': 0, 'mismatch': [], 'unrealisable': 0}}
+def _blank(q: str) -> Dict[str, Any]:
+    return {'function': q, 'obligations': [], 'failures': [], 'unsupported': [], 'errors': [], 'paths': 0, 'covers': {},
+            'stats': {}, 'wall_s': 0.0, 'cross': {'checked': 0, 'agree': 0, 'mismatch': [], 'unrealisable': 0}}
+
+
+def verify_path_task(task: Tuple[str, List[int]]) -> Dict[str, Any]:
+    """runs in a worker: explore ONE path of one function; returns its obligations, native replays of failures,
+    cross-check records and the alternative decision prefixes it discovered"""
+    q, decisions = task
+    out = _blank(q)
+    out['pending'] = []
     if 'err' in _W:
         out['errors'].append(_W['err'])
         return out
@@ -120,17 +127,21 @@ def verify_one(task: Tuple[str, str, Optional[List[int]]]) -> Dict[str, Any]:
         out['sha1'] = fi.sha1()
         out['assumed'] = ct.assumed
         out['props'] = list(ct.props)
+        out['assume_no_raise'] = dict(ct.extra.get('assume_no_raise', {}))
+        out['assumed_clauses'] = list(ct.extra.get('assumed_clauses', ()))
         if ct.assumed:
             return out
         v.cross_check = ct.extra.get('cross_check', True)
-        out['cross_enabled'] = bool(v.cross_check)
         v.cross = []
-        r = v.verify_function(fi, ct)
-        out['paths'] = len(r.paths)
+        qu = _W.get('queue')
+        v.pending_sink = (lambda p: qu.put((q, list(p)))) if qu is not None else None
+        r, pend = v.verify_one_path(fi, ct, decisions)
+        out['pending'] = pend
+        out['paths'] = 1
         out['covers'] = r.covers
         out['stats'] = {k: (round(x, 3) if isinstance(x, float) else x) for k, x in r.stats.items()}
         out['unsupported'] = list(r.unsupported)
-        out['vacuous'] = r.vacuous
+        out['live'] = bool(r.covers)
         out['obligations'] = [ob_summary(o) for o in r.obligations]
         for o in r.obligations:
             if o.verdict == 'failed':
@@ -140,26 +151,106 @@ def verify_one(task: Tuple[str, str, Optional[List[int]]]) -> Dict[str, Any]:
                 f['model'] = str(o.model)[:4000]
                 out['failures'].append(f)
             elif o.verdict == 'unknown':
-                f = ob_summary(o)
-                f['reason'] = o.info.get('reason')
                 out['unsupported'].append(f'solver unknown on {o.oid} ({o.text}): {o.info.get("reason")}')
         for c in v.cross:
             st = c.get('status')
             if st in ('unrealisable', 'precondition-not-met'):
                 out['cross']['unrealisable'] += 1
-                continue
-            if st in ('concretizer-error', 'replay-error', 'contract-error'):
+            elif st in ('concretizer-error', 'replay-error', 'contract-error'):
                 out['cross']['mismatch'].append(c)
-                continue
-            out['cross']['checked'] += 1
-            if c['predicted'] == c['native']:
-                out['cross']['agree'] += 1
             else:
-                out['cross']['mismatch'].append(c)
+                out['cross']['checked'] += 1
+                if c['predicted'] == c['native']:
+                    out['cross']['agree'] += 1
+                else:
+                    out['cross']['mismatch'].append(c)
     except Exception:
         out['errors'].append(traceback.format_exc())
     out['wall_s'] = round(time.time() - t0, 2)
     return out
+
+
+def merge_into(acc: Dict[str, Any], r: Dict[str, Any]) -> None:
+    for k in ('contract', 'sha1', 'assumed', 'props', 'assume_no_raise', 'assumed_clauses'):
+        if k in r:
+            acc[k] = r[k]
+    acc['obligations'] += r['obligations']
+    acc['failures'] += r['failures']
+    for u in r['unsupported']:
+        if u not in acc['unsupported']:
+            acc['unsupported'].append(u)
+    acc['errors'] += r['errors']
+    acc['paths'] += r.get('paths', 0)
+    for k, n in r.get('covers', {}).items():
+        acc['covers'][k] = acc['covers'].get(k, 0) + n
+    for k, x in r.get('stats', {}).items():
+        if isinstance(x, (int, float)):
+            acc['stats'][k] = round(acc['stats'].get(k, 0) + x, 3)
+    acc['wall_s'] = round(acc['wall_s'] + r.get('wall_s', 0), 2)
+    for k in ('checked', 'agree', 'unrealisable'):
+        acc['cross'][k] += r['cross'][k]
+    acc['cross']['mismatch'] += r['cross']['mismatch']
+    acc['live'] = acc.get('live', False) or r.get('live', False)
+
+
+def run_all(targets: List[str], jobs: int) -> List[Dict[str, Any]]:
+    """path-level work queue over a process pool: every (function, decision prefix) is one task"""
+    import concurrent.futures as cf
+    acc = {q: _blank(q) for q in targets}
+    limit = int(os.environ.get('PYVC_MAX_PATHS', '4000'))
+    if jobs <= 1:
+        _init_worker()
+        todo = [(q, []) for q in targets]
+        while todo:
+            q, d = todo.pop()
+            r = verify_path_task((q, d))
+            merge_into(acc[q], r)
+            if acc[q]['paths'] < limit:
+                todo += [(q, p) for p in r.get('pending', [])]
+        return [finish(acc[q]) for q in targets]
+    mgr = mp.Manager()
+    queue = mgr.Queue()
+    submitted = {q: 0 for q in targets}
+    with cf.ProcessPoolExecutor(max_workers=jobs, initializer=_init_worker, initargs=(queue,)) as ex:
+        futs = {ex.submit(verify_path_task, (q, [])): q for q in targets}
+        for q in targets:
+            submitted[q] = 1
+
+        def drain():
+            import queue as _q
+            while True:
+                try:
+                    q2, p2 = queue.get_nowait()
+                except _q.Empty:
+                    return
+                if submitted[q2] < limit:
+                    submitted[q2] += 1
+                    futs[ex.submit(verify_path_task, (q2, p2))] = q2
+                elif 'path limit exceeded' not in acc[q2]['unsupported']:
+                    acc[q2]['unsupported'].append('path limit exceeded')
+
+        while futs:
+            done, _ = cf.wait(list(futs), timeout=0.25, return_when=cf.FIRST_COMPLETED)
+            drain()
+            for f in done:
+                q = futs.pop(f)
+                try:
+                    r = f.result()
+                except Exception:
+                    r = _blank(q)
+                    r['errors'].append(traceback.format_exc())
+                merge_into(acc[q], r)
+                for p in r.get('pending', []):
+                    if submitted[q] < limit:
+                        submitted[q] += 1
+                        futs[ex.submit(verify_path_task, (q, p))] = q
+            drain()
+    return [finish(acc[q]) for q in targets]
+
+
+def finish(a: Dict[str, Any]) -> Dict[str, Any]:
+    a['vacuous'] = (not a.get('assumed')) and not a.get('live') and not a['unsupported'] and not a['errors']
+    return a
 
 
 def load_props() -> Dict[str, Dict[str, Any]]:
@@ -203,13 +294,7 @@ def main(argv=None) -> int:
     if not targets:
         print(f'CHECKER-ERROR: no function under contract serves property {pid} (zero obligations)')
         return 3
-    tasks = [(q, a.tier, None) for q in targets]
-    if a.jobs > 1 and len(tasks) > 1:
-        with mp.Pool(min(a.jobs, len(tasks)), initializer=_init_worker) as pool:
-            results = pool.map(verify_one, tasks, chunksize=1)
-    else:
-        _init_worker()
-        results = [verify_one(t) for t in tasks]
+    results = run_all(targets, a.jobs)
     return report(pid, a, results, seed, time.time() - t0, cts)
 
 
@@ -233,6 +318,10 @@ def report(pid: str, a, results: List[Dict[str, Any]], seed: int, wall: float, c
         if r.get('assumed'):
             assumed_used.append(f"assumed contract (never proved): {r['function']}")
             continue
+        for callee, why in (r.get('assume_no_raise') or {}).items():
+            assumed_used.append(f"assumed lemma in {r['function']}: {callee} does not raise there - {why}")
+        for cl in r.get('assumed_clauses') or []:
+            assumed_used.append(f"assumed clause (not proved) {r['function']}::{cl}")
         obs = [o for o in r['obligations'] if relevant(o, pid)]
         n_ob += len(obs)
         n_dis += sum(1 for o in obs if o['verdict'] == 'discharged')
